@@ -301,7 +301,9 @@ func (c *Ctx) ord7() {
 				dfail.fail(p, last, "a failed connect attempt leaves writeSem untouched: requests keep waiting for its outcome instead of getting ErrDown")
 			}
 		case dknown && drel == pathx.RNil && re != triNil:
-			closed := p.Index(id, func(e *pathx.Event) bool { return isInvoke(e, "net.Conn", "Close") && len(e.Args) > 0 && e.Args[0] == conn })
+			closed := p.Index(id, func(e *pathx.Event) bool {
+				return isInvoke(e, "net.Conn", "Close") && len(e.Args) > 0 && e.Args[0] == conn
+			})
 			switch {
 			case down < 0:
 				fail.fail(p, last, "connect fails after the handshake without depositing connDown")
